@@ -15,7 +15,7 @@
 (* specification continues from the one the code took.                                             *)
 (* Integer arguments use -1 for "not given"; name parts are tagged ("s:ctrl", "i:0") so that the   *)
 (* string "0" and the integer 0 stay distinct.                                                     *)
-EXTENDS Util, Integers, SequencesExt
+EXTENDS Util, Integers, SequencesExt, MemoryMapAbsOps
 
 MmInit(cfg) == [maps |-> <<>>]
 
@@ -183,6 +183,14 @@ CheckLookup(st, c, o) ==
                  f.found # 1 \/ f.info # <<r.id, r.path, r.start, r.stop, r.width>> THEN "find_resource()"
   ELSE "none"
 
+\* ---- refinement of the abstract allocator (MemoryMapAbs.tla; proved safe for every size by TLAPS) ----
+AbsProj(map) == {[start |-> it.start, stop |-> it.stop] : it \in map.items}
+AbsStepOK(st, st2) ==
+  \A m \in 1..Len(st2.maps) :
+    IF m > Len(st.maps) THEN InitRel(AbsProj(st2.maps[m]), st2.maps[m].cursor, st2.maps[m].frozen = 1)
+    ELSE StepRel(Pow2(st.maps[m].aw), AbsProj(st.maps[m]), st.maps[m].cursor, st.maps[m].frozen = 1,
+                 AbsProj(st2.maps[m]), st2.maps[m].cursor, st2.maps[m].frozen = 1)
+
 MmCheck(cfg, st, c, o) ==
   LET maps == st.maps IN
   IF c.call = "lookup" THEN CheckLookup(st, c, o)
@@ -198,5 +206,6 @@ MmCheck(cfg, st, c, o) ==
           /\ (~DenseOk(maps, c) \/ c.ratio # WinRatio(maps[c.m], maps[c.w], c)) THEN "dense add_window range"
   ELSE IF c.ok = 1 /\ c.call = "align_to"
           /\ c.ret # AlignUp(maps[c.m].cursor, Max2(c.al, maps[c.m].al)) THEN "align_to result"
+  ELSE IF ~AbsStepOK(st, MmStep(cfg, st, c)) THEN "abstract allocator step (MemoryMapAbs)"
   ELSE CheckViews(MmStep(cfg, st, c), o)
 ====
